@@ -221,19 +221,26 @@ def addElement (s : Sequence) (pos : Int) (e : Element) : Res Sequence :=
     ⟨{ s with data := Dict.upsert s.data pos (.el { e with cache := some m })
               sequencing := Dict.upsert s.sequencing pos defaultSeqEl }, none⟩
 
-/-- `Sequence.addSubSequence(position, subsequence)`; `nested` says the argument itself holds a
-    subsequence (refused), `sub` is the argument when it does not -/
+/-- the store of a sequence that holds elements only (`none` if it holds a subsequence) -/
+def elementsOnly : Dict Int Entry → Option (Dict Int Element)
+  | [] => some []
+  | (p, .el e) :: rest => (elementsOnly rest).map (fun d => (p, e) :: d)
+  | (_, .sub _) :: _ => none
+
+/-- what `addSubSequence` stores: `subsequence.copy()` (elements, sequencing, settings; the copy
+    does not carry the name) -/
+def storedSub (sub : Sequence) (d : Dict Int Element) : SubSeq :=
+  { data := d, sequencing := sub.sequencing, awgspecs := sub.awgspecs, name := "" }
+
+/-- `Sequence.addSubSequence(position, subsequence)`: an argument that itself holds a subsequence
+    (nesting) or has another sample rate is refused -/
 def addSubSequence (s : Sequence) (pos : Int) (sub : Sequence) : Res Sequence :=
-  let inner : Option (Dict Int Element) :=
-    sub.data.mapM (fun (p, en) => match en with | .el e => some (p, e) | .sub _ => none)
-  match inner with
+  match elementsOnly sub.data with
   | none => ⟨s, some .value⟩
   | some d =>
     if sub.getSR ≠ s.getSR then ⟨s, some .value⟩
     else
-      -- `subsequence.copy()` does not carry the name
-      let stored : SubSeq := { data := d, sequencing := sub.sequencing, awgspecs := sub.awgspecs, name := "" }
-      ⟨{ s with data := Dict.upsert s.data pos (.sub stored)
+      ⟨{ s with data := Dict.upsert s.data pos (.sub (storedSub sub d))
                 sequencing := Dict.upsert s.sequencing pos defaultSeqSub }, none⟩
 
 /-- `Sequence.checkConsistency()`; raises KeyError without a sample rate -/
@@ -259,11 +266,15 @@ def channels (s : Sequence) : Except Err (List Chan) := do
 def points (s : Sequence) : Except Err Int :=
   (Dict.vals s.data).foldlM (fun acc en => do pure (acc + (← en.points))) 0
 
+/-- the contribution of one position to `Sequence.duration`: repetitions × duration of the entry
+    (for a subsequence: its own repetition-weighted duration); KeyError without a sequencing entry -/
+def posDuration (s : Sequence) (x : Int × Entry) : Except Err Rat :=
+  match Dict.get? s.sequencing x.1 with
+  | none => .error .key
+  | some q => x.2.duration.map (fun d => (q.nrep : Rat) * d)
+
 def duration (s : Sequence) : Except Err Rat :=
-  s.data.foldlM (fun acc (pos, en) => do
-    match Dict.get? s.sequencing pos with
-    | none => throw .key
-    | some q => pure (acc + (q.nrep : Rat) * (← en.duration))) 0
+  s.data.foldlM (fun acc x => (posDuration s x).map (fun v => acc + v)) 0
 
 /-- `Sequence.copy()` (deep; the name is not carried over) -/
 def copy (s : Sequence) : Sequence := { s with name := "" }
